@@ -39,7 +39,8 @@ fn img(prog: usize, n: usize) -> Img {
     Img { words: e.0.clone(), buf: e.1 }
 }
 
-/// Holder action before a step: 0 none, 1 hold keyboard, 2 hold display, 3 hold keyboard and append a byte on release, 4 hold display and drain it on release
+/// Holder action before a step: 0 none, 1 hold keyboard, 2 hold display, 3 hold keyboard and append a byte on release, 4 hold display and drain it on release,
+/// 5 / 6: hold keyboard / display as a reader (shared guard, e.g. a front end rendering the buffer)
 type Sched = Vec<(u32, u8)>;
 
 struct Obs { received: Vec<u8>, output_expected: Vec<u8>, shown: Vec<u8>, sent: Vec<u8>, steps: usize, halted: bool, stale: u64, dropped: u64, unwaited: (u64, u64) }
@@ -66,9 +67,9 @@ fn run_boundary(prog: usize, init: &[u8], sched: &Sched) -> Result<Obs, (String,
     let mut halted = false; let mut steps = 0usize;
     for k in 0..HORIZON {
         let act = sched.iter().find(|s| s.0 as usize == k).map(|s| s.1).unwrap_or(0);
-        p.hold_kb = act == 1 || act == 3; p.hold_disp = act == 2 || act == 4;
+        p.hold_kb = act == 1 || act == 3 || act == 5; p.hold_disp = act == 2 || act == 4 || act == 6; p.hold_read = act >= 5;
         let info = step_compare(&mut p, false).map_err(|(s, d)| (s, format!("{what}: step {k}: {d}")))?;
-        p.hold_kb = false; p.hold_disp = false;
+        p.hold_kb = false; p.hold_disp = false; p.hold_read = false;
         steps += 1;
         if act == 3 { p.kb.get_buffer().write().unwrap().push_back(next_byte); p.rf.kb_queue.push_back(next_byte); sent.push(next_byte); next_byte += 1; }
         if act == 4 { let mut g = p.disp.get_buffer().write().unwrap(); drained.extend(g.drain(..)); p.rf.disp.clear(); }
@@ -202,7 +203,7 @@ fn record(acc: &mut Acc, r: Result<(usize, Vec<&'static str>), (String, String)>
 }
 
 pub fn run(ctx: &Ctx) -> Report {
-    let mut rep = Report::new("4 programs (GETC/OUT echo loop recording what it received; GETC xN then PUTS; a supervisor-mode KBSR/KBDR + DSR/DDR polling loop without the OS; OUT of 3 fixed bytes) x inputs of length 0-3; 'another thread' is played by the harness taking the real RwLock write guard: boundary mode (quick and thorough): before each step the holder is absent / holds the keyboard / holds the display / holds the keyboard and appends a byte on release / holds the display and drains it on release; every pattern with <=2 (thorough 3) acting boundaries over the run, and ALL 2^n hold patterns over the first n=14 (thorough 18) boundaries of the single-byte programs; each run in lock-step with RefLC3 (which encodes the two known findings exactly: a DDR write under a held display lock is dropped, a KBDR read under a held keyboard lock returns the stale value and consumes nothing); attempt mode (thorough, hook H3): the lock is held at individual try_write attempts, every set of <=2 attempts. Oracle: bytes received (recorded by the program, in order) = queued input exactly once; display (+ drained) = bytes output exactly once. non-trivial = schedules with at least one hold");
+    let mut rep = Report::new("4 programs (GETC/OUT echo loop recording what it received; GETC xN then PUTS; a supervisor-mode KBSR/KBDR + DSR/DDR polling loop without the OS; OUT of 3 fixed bytes) x inputs of length 0-3; 'another thread' is played by the harness taking the real RwLock write guard: boundary mode (quick and thorough): before each step the holder is absent / holds the keyboard / holds the display / holds the keyboard and appends a byte on release / holds the display and drains it on release / holds the keyboard or the display as a reader (shared guard); every pattern with <=2 (thorough 3) acting boundaries over the run, and ALL 2^n hold patterns over the first n=14 (thorough 18) boundaries of the single-byte programs; each run in lock-step with RefLC3 (which encodes the two known findings exactly: a DDR write under a held display lock is dropped, a KBDR read under a held keyboard lock returns the stale value and consumes nothing); attempt mode (thorough, hook H3): the lock is held at individual try_write attempts, every set of <=2 attempts. Oracle: bytes received (recorded by the program, in order) = queued input exactly once; display (+ drained) = bytes output exactly once. non-trivial = schedules with at least one hold");
     let progs: [usize; 4] = [0, 1, 2, 3];
     let maxk = ctx.pick(2usize, 3usize);
     for &prog in &progs { for init in inputs() {
@@ -212,14 +213,14 @@ pub fn run(ctx: &Ctx) -> Report {
         let base = match run_boundary(prog, &init, &vec![]) { Ok(o) => o, Err((s, d)) => { rep.acc.violation(s, format!("b:{prog}:{}:", hex(&init)), d); continue; } };
         if !init.is_empty() || prog == 3 { if let Err((s, d)) = judge(prog, &base, "no contention", false, false) { rep.acc.violation(s, format!("b:{prog}:{}:", hex(&init)), d); } }
         let nb = (base.steps as u64).min(ctx.pick(90, 140));
-        let slots = nb * 4;
+        let slots = nb * 6;
         for k in 1..=maxk {
             if k == 3 && nb > 60 { continue; }
             let total = slots.pow(k as u32);
             let init2 = init.clone();
             let r = sweep(ctx, total, 64, |i, acc| {
                 let Some(sel) = k_subsets(slots, k, i) else { return };
-                let sched: Sched = sel.iter().map(|s| ((s / 4) as u32, (s % 4) as u8 + 1)).collect();
+                let sched: Sched = sel.iter().map(|s| ((s / 6) as u32, (s % 6) as u8 + 1)).collect();
                 if sched.windows(2).any(|w| w[0].0 == w[1].0) { return; } // one action per boundary
                 if init2.is_empty() && prog != 3 && !sched.iter().any(|s| s.1 == 3) { return; } // no input at all: the program would wait forever by contract
                 acc.evals += 1; acc.traces += 1; acc.nontrivial += 1; acc.count(&format!("boundary_schedules_k{k}"), 1);
@@ -234,7 +235,7 @@ pub fn run(ctx: &Ctx) -> Report {
     } }
     // all 2^n patterns on single-byte programs
     let nbits = ctx.pick(14u32, 18u32);
-    for (prog, init, action) in [(0usize, vec![b'a'], 1u8), (0, vec![b'a'], 2), (2, vec![b'a'], 1), (2, vec![b'a'], 2), (3, vec![], 2)] {
+    for (prog, init, action) in [(0usize, vec![b'a'], 1u8), (0, vec![b'a'], 2), (2, vec![b'a'], 1), (2, vec![b'a'], 2), (3, vec![], 2), (0, vec![b'a'], 5), (0, vec![b'a'], 6), (3, vec![], 6)] {
         let r = sweep(ctx, 1u64 << nbits, 64, |mask, acc| {
             let sched: Sched = (0..nbits).filter(|b| mask >> b & 1 == 1).map(|b| (b + 2, action)).collect();
             acc.evals += 1; acc.traces += 1; if mask != 0 { acc.nontrivial += 1; } acc.count("all_patterns_schedules", 1);
